@@ -95,7 +95,15 @@ def main():
                 a, b = os.path.join(src, f), os.path.join(keep, f)
                 if os.path.exists(a) and os.path.abspath(a) != os.path.abspath(b):
                     shutil.copy(a, b)
-            with open(os.path.join(keep, "meta.json"), "w") as f:
+            mp = os.path.join(keep, "meta.json")
+            if os.path.exists(mp):
+                # keep what an earlier confirmation recorded (description fields, test-suite run)
+                old = json.load(open(mp))
+                for k, v in old.items():
+                    if k not in meta or (k == "tests_on_changed" and not meta.get(k)):
+                        meta[k] = v
+            meta.pop("source", None)
+            with open(mp, "w") as f:
                 json.dump(meta, f, indent=1)
     finally:
         shutil.rmtree(scratch, ignore_errors=True)
